@@ -23,6 +23,7 @@ fn dispatch(req: &J) -> J {
         "history" => multi::history(req),
         "threads" => multi::threads(req),
         "lex" => lex::run(req),
+        "elements" => lex::elements(req),
         "views" => views::run(req),
         "derive" => views::derive(req),
         "ints" => views::ints(req),
